@@ -100,6 +100,13 @@ def list_join_clause(segment: BaseSegment) -> list[BaseSegment]:
                     return []
         # otherwise, recursively find join_clause
         return list(segment.recursive_crawl("join_clause"))
+    elif segment.type == "from_expression":
+        # one item of a comma separated FROM list: its own joins, parenthesised join groups included, not subquery's
+        return list(
+            segment.recursive_crawl(
+                "join_clause", no_recursive_seg_type="select_statement"
+            )
+        )
     return []
 
 
